@@ -46,7 +46,9 @@ Fixpoint starts_with (p x : str) : bool :=
   | _ :: _, [] => false
   end.
 
-Definition ends_with (p x : str) : bool := starts_with (rev p) (rev x).
+(* str.endswith: compare p with the last |p| characters of x *)
+Definition ends_with (p x : str) : bool :=
+  Nat.leb (List.length p) (List.length x) && str_eqb p (skipn (List.length x - List.length p) x).
 
 (* Python exceptions that the modelled code can raise *)
 Inductive exn :=
